@@ -293,6 +293,17 @@ Definition pobj_repr (name : string) (args : list EV) (first_is_class : option s
       end
   end.
 
+(** an argument of a ParamObj: a class object (first argument of a
+    classmethod) is never encoded *)
+Definition arg_ev (enc : val -> option json) (x : val) : option EV :=
+  match x with
+  | VClass _ => Some (JNull, None)
+  | _ => do j <- enc x; Some (j, val_len x)
+  end.
+
+Definition first_class (args : list val) : option string :=
+  match args with VClass c :: _ => Some c | _ => None end.
+
 Fixpoint enc (v : val) {struct v} : option json :=
   match v with
   | VNone => Some JNull
@@ -313,11 +324,8 @@ Fixpoint enc (v : val) {struct v} : option json :=
       do r <- ev_abstract_repr name a k;
       Some (strip r)
   | VPObj name args kwargs =>
-      let cls := match args with VClass c :: _ => Some c | _ => None end in
-      do a <- mapM (fun x => match x with
-                             | VClass _ => Some (JNull, None)
-                             | _ => do j <- enc x; Some (j, val_len x)
-                             end) args;
+      let cls := first_class args in
+      do a <- mapM (arg_ev enc) args;
       do k <- mapM_vals (fun x => do j <- enc x; Some (j, val_len x)) kwargs;
       pobj_repr name a cls k
   end.
@@ -659,7 +667,7 @@ Fixpoint dec_param (vars : vars_ctx) (j : json) {struct j} : option val :=
 (** * Waveforms, pulses, operations *)
 Definition any_param (d : list (string * val)) : bool := existsb (fun kv => is_param (snd kv)) d.
 
-(** what a constructor call [cls(**fields)] evaluates to: a ParamObj holding
+(** what a constructor call cls called with keyword fields evaluates to: a ParamObj holding
     the keyword arguments when one of them is parametrized, the concrete object
     (in the canonical presentation of its own _to_abstract_repr) otherwise *)
 Definition mk_obj (name : string) (fields : list (string * val)) : option val :=
@@ -922,47 +930,59 @@ Definition bind_fields (names : list string) (defaults : list (string * json))
     let d := dupdate (dupdate (map (fun kv => (fst kv, VJson (snd kv))) defaults) (zip names args)) kwargs in
     mapM (fun n => do v <- dget n d; Some (n, v)) names.
 
+Definition norm_json (v : val) : val :=
+  match v with
+  | VJson (JObj _) => v
+  | VJson j => match lit_of_json j with Some x => x | None => v end
+  | _ => v
+  end.
+Definition norm_defaults (f : list (string * val)) : list (string * val) :=
+  map (fun kv => (fst kv, norm_json (snd kv))) f.
+
+(** normal form of a ParamObj once its arguments are in normal form *)
+Definition norm_pobj (name : string) (cls : option string) (a : list val) (k : list (string * val))
+  : option val :=
+  match cls with
+  | Some c =>
+      let full := (c ++ "." ++ name)%string in
+      do f <- bind_fields (cm_fields full) (cls_defaults full) a k;
+      Some (VPObj name [VClass c] (norm_defaults f))
+  | None =>
+      if str_in name gen_unary_ops then
+        match a with x :: _ => Some (VPObj name [x] []) | [] => None end
+      else if str_in name gen_binary_ops then
+        match a with x :: y :: _ => Some (VPObj name [x; y] []) | _ => None end
+      else if String.eqb name "CompositeWaveform" then
+        Some (VPObj name a [])
+      else
+        do f <- bind_fields (cm_fields name) (cls_defaults name) a k;
+        let f := norm_defaults f in
+        if String.eqb name "InterpolatedWaveform" then
+          match dget "times" f, dget "values" f with
+          | Some VNone, Some vs =>
+              do n <- val_len vs;
+              Some (VPObj name [] (dset "times" (VList (map VFlt (linspace01 n))) f))
+          | Some _, _ => Some (VPObj name [] f)
+          | _, _ => None
+          end
+        else Some (VPObj name [] f)
+  end.
+
+Definition drop_class (args : list val) : list val :=
+  match args with VClass _ :: r => r | _ => args end.
+
 Fixpoint norm (v : val) {struct v} : option val :=
   match v with
   | VNone | VBool _ | VInt _ | VFlt _ | VStr _ | VVar _ _ | VClass _ => Some v
   | VList l => do l' <- mapM norm l; Some (VList l')
-  | VJson j => Some (match j with
-                     | JObj _ => v
-                     | _ => match lit_of_json j with Some x => x | None => v end
-                     end)
+  | VJson j => Some (norm_json v)
   | VItem n size k => do k' <- norm_key size k; Some (VItem n size k')
   | VObj name args kwargs =>
       do a <- mapM norm args; do k <- mapM_vals norm kwargs; Some (VObj name a k)
   | VPObj name args kwargs =>
       do k <- mapM_vals norm kwargs;
-      match args with
-      | VClass c :: rest =>
-          do a <- mapM norm rest;
-          let full := (c ++ "." ++ name)%string in
-          do f <- bind_fields (cm_fields full) (cls_defaults full) a k;
-          do f <- mapM_vals norm f;
-          Some (VPObj name [VClass c] f)
-      | _ =>
-          do a <- mapM norm args;
-          if str_in name gen_unary_ops then
-            match a with x :: _ => Some (VPObj name [x] []) | [] => None end
-          else if str_in name gen_binary_ops then
-            match a with x :: y :: _ => Some (VPObj name [x; y] []) | _ => None end
-          else if String.eqb name "CompositeWaveform" then
-            Some (VPObj name a [])
-          else
-            do f <- bind_fields (cm_fields name) (cls_defaults name) a k;
-            do f <- mapM_vals norm f;
-            if String.eqb name "InterpolatedWaveform" then
-              match dget "times" f, dget "values" f with
-              | Some VNone, Some vs =>
-                  do n <- val_len vs;
-                  Some (VPObj name [] (dset "times" (VList (map VFlt (linspace01 n))) f))
-              | Some _, _ => Some (VPObj name [] f)
-              | _, _ => None
-              end
-            else Some (VPObj name [] f)
-      end
+      do a <- mapM norm (match args with VClass _ :: r => r | _ => args end);
+      norm_pobj name (first_class args) a k
   end.
 
 Definition bind_call (meth : string) (c : call) : option (list (string * val)) :=
@@ -1103,7 +1123,7 @@ Definition norm_seq (s : seqin) : option (list call) :=
   let mag := if has_call "set_magnetic_field" s
              then [mkCall "set_magnetic_field" (map VFlt (s_mag s)) []] else [] in
   do slm <- concatM (norm_call_slm_legacy s) (s_calls s);
-  let vars := map (fun v => mkCall "declare_variable" [VStr (fst v)]
+  let vars := map (fun v : string * (bool * Z) => mkCall "declare_variable" [VStr (fst v)]
                               [("size", VInt (snd (snd v)));
                                ("dtype", VClass (if fst (snd v) then "int" else "float"))])
                   (s_vars s) in
